@@ -81,6 +81,7 @@ type judgeOpts struct {
 	NoLine    bool
 	SigPrefix string // signature detail
 	NoOneLine bool   // do not also run the one-line layout
+	NoPrompt  bool   // do not also run the one-line layout as a line of the interactive prompt
 	Machine   *model.Machine
 }
 
@@ -94,6 +95,9 @@ func judge(c *fw.Ctx, prog []*model.N, jo judgeOpts) (o h.Outcome, res *model.Re
 	o, res, skipped = judgeSrc(c, src, prog, jo)
 	if !skipped && o.Panic == "" && !o.Diverged && !jo.NoOneLine {
 		judgeOneLine(c, prog, jo, o, res)
+		if !jo.NoPrompt && jo.Stdin == "" && len(jo.Prefix) == 0 {
+			judgePrompt(c, prog, jo)
+		}
 		if res.Err != nil && !strings.Contains(strings.ReplaceAll(src, "\n", ""), "\r") && strings.Count(src, "\"")%2 == 0 {
 			judgeCRLF(c, src, jo, o, res)
 		}
@@ -292,5 +296,81 @@ func batchVsSingle(c *fw.Ctx, sig string, prelude func() []*model.N, exprs []fun
 			r.Observed = fmt.Sprintf("stdout %q status %d stderr %q", o.Stdout, o.Status, trunc(o.Stderr, 120))
 			c.Violate(r)
 		}
+	}
+}
+
+// judgePrompt runs the program, written on one line, as the only line of an interactive session:
+// the same statements run in the same order with the same effects; expression statements at the
+// top level additionally echo their value (the reference model in prompt mode says which), a
+// runtime error is reported and the session ends normally with status 0.
+func judgePrompt(c *fw.Ctx, prog []*model.N, jo judgeOpts) {
+	src := model.RenderOneLine(prog)
+	if strings.Contains(src, "//") || strings.Contains(strings.TrimSuffix(src, "\n"), "\n") {
+		return
+	}
+	// whether an expression statement nested in a block, branch or loop body of the line (outside
+	// any function body) echoes its value is not specified: such programs are left out
+	var nested func(n *model.N, depth int) bool
+	nested = func(n *model.N, depth int) bool {
+		if n == nil {
+			return false
+		}
+		switch n.K {
+		case "expr":
+			return depth > 0
+		case "fun":
+			return false
+		case "block", "if", "while", "for":
+			for i, k := range n.A {
+				if n.K == "for" && i == 0 && k != nil && k.K == "expr" {
+					return true // an expression as loop initialiser is parsed as a statement
+				}
+				if nested(k, depth+1) {
+					return true
+				}
+			}
+		}
+		return false
+	}
+	for _, st := range prog {
+		if nested(st, 0) {
+			c.Count("prompt_variant_left_out_nested_expression_statement")
+			return
+		}
+	}
+	m := &model.Machine{Repl: true}
+	if jo.Machine != nil {
+		m.MaxSteps = jo.Machine.MaxSteps
+	}
+	res := m.Run(prog)
+	if res.Unspec != "" || res.Diverged {
+		return
+	}
+	o := h.RunRepl(src, h.Opts{Fuel: fuelFor(res) + 40*int64(len(src))})
+	c.Eval("prompt\x00"+src, true)
+	base := fw.Replay{Mode: "repl", Program: src, CLI: true, InStdout: o.Stdout, InStderr: o.Stderr, InStatus: o.Status}
+	if abnormal(c, o, "repl", src, base) {
+		return
+	}
+	fail := func(clause, exp, obs string) {
+		r := base
+		r.Sig = c.Check + "|as-prompt-line|" + clause
+		if jo.SigPrefix != "" {
+			r.Sig += "|" + strings.SplitN(jo.SigPrefix, "|", 2)[0]
+		}
+		r.What = "the program typed as one line at the interactive prompt: " + clause
+		r.Expected, r.Observed = exp, obs
+		c.Violate(r)
+	}
+	if !strings.HasPrefix(o.Stdout, ">> ") || !strings.HasSuffix(o.Stdout, ">> ") || len(o.Stdout) < 6 || o.Status != 0 {
+		fail("session", "a prompt, the response, a final prompt, status 0", fmt.Sprintf("stdout %q status %d", trunc(o.Stdout, 200), o.Status))
+		return
+	}
+	body := o.Stdout[3 : len(o.Stdout)-3]
+	if why := model.CompareStdout(res, body); why != "" {
+		fail("stdout", res.Stdout(), body+"  ("+why+")")
+	}
+	if (res.Err != nil) != (o.Stderr != "") {
+		fail("diagnostic", fmt.Sprintf("runtime error expected: %v", res.Err != nil), fmt.Sprintf("stderr %q", trunc(o.Stderr, 200)))
 	}
 }
